@@ -259,9 +259,6 @@ func c19Configs(thorough bool) []projCfg {
 					continue // documented singular: cone constant 0
 				}
 				for _, name := range []string{"AlbersEqualAreaConic", "EquidistantConic", "LambertConformalConic"} {
-					if p1 == p2 && name != "AlbersEqualAreaConic" {
-						continue // formula is 0/0 for equal parallels (singular configuration of these implementations)
-					}
 					olons := []float64{0, -120, 150}
 					olats := []float64{0, 40, -25}
 					if thorough {
